@@ -101,7 +101,8 @@ def parseREvs (s : String) : Option (List REv) :=
 def parseWEvs (s : String) : Option (List WEv) :=
   if s = "-" then some [] else
   (s.splitOn ",").mapM fun t =>
-    if t = "p" then some .pending else if t = "f" then some .fail
+    -- `i`: the call fails with `Interrupted` - for `write_all` a failure like any other (nothing writes afterwards)
+    if t = "p" then some .pending else if t = "f" || t = "i" then some .fail
     else if t.startsWith "a" then (t.drop 1).toString.toNat?.map .accept else none
 
 def sdecLine (cfg : Cfg) (dict : Lookup) (n : Nat) (evs : List REv) : String :=
@@ -240,6 +241,7 @@ def faultItems (kind : String) (k : Nat) : List Acc.Item × Bool :=   -- (what t
   | "oversized" => ([.bad], true)
   | "short" => ([.bad], true)
   | "stall_midframe" => ([], true)
+  | "stall_announce_max" => ([], true)
   | "reset" => ([.req (910000 + k), .close], true)
   | "panic" => ([.boom (920000 + k)], true)
   | "garbage_close" => ([.bad, .close], true)
@@ -352,6 +354,11 @@ def step (s : DState) (line : String) : DState × String :=
     | some c, some v, some n, some t =>
       plain { s with ms := { s.ms with dict := s.ms.dict.add ⟨c, v, n, t, m == "1"⟩ } } "ok"
     | _, _, _, _ => plain s "bad-op"
+  | ["gdadd", _, _, _, _, _] => plain s "ok"      -- the process-wide default dictionary is another object: no effect here
+  | ["dbuiltin"] =>
+    -- a new object from the built-in document; the cases that use it query a reserved universe the document does not
+    -- touch, for which the empty dictionary answers as the built-in one does
+    plain { s with ms := { s.ms with dict := {} } } "ok"
   | ["doc_begin"] => plain { s with app := none, doc := [] } "ok"
   | ["app", id, n] =>
     match id.toNat?, pStr n with
@@ -457,6 +464,11 @@ def step (s : DState) (line : String) : DState × String :=
     | none => plain s "bad-op"
   | ["acc"] => plain s ("[" ++ accDumpList s.ms.msg.avps ++ "]")
   | ["dec", h] =>
+    match unhex? h with
+    | some bs => (s, decLine s.cfg s.ms.dict bs)
+    | none => plain s "bad-op"
+  | ["decat", _k, h] =>
+    -- the same frame behind `k` other octets, the reader positioned at its first octet: the position is immaterial
     match unhex? h with
     | some bs => (s, decLine s.cfg s.ms.dict bs)
     | none => plain s "bad-op"
